@@ -331,6 +331,7 @@ type monitor struct {
 	appliedNext  map[uint64]uint64    // node -> last index handed out for apply in this incarnation (C02)
 	readAt       map[[2]uint64]uint64 // ctx -> max commit when requested (C06)
 	kinds        map[uint64]byte      // C18
+	prevRole     map[uint64]uint64    // C18
 	viol         []string
 	elections    int
 	commits      int
